@@ -21,10 +21,19 @@ PROP = {
              "lock / encrypt / write / unlock transition system run on a schedule that contains the blocked attempts; over TCP - 2..8 "
              "goroutines x 1..4 packets of mixed sizes through the real handshake to the reference server, which reads every byte and "
              "decodes; per-sender payload sequences compared with the model run on a random schedule of sender steps; load runs "
-             "(8x40x2 KiB, 4x60x512 B; thorough also 8x150x16 KiB, 8x100x8 KiB, 3x300x64 B). Oracles on the implementation: valid frames delivered intact, altered frames "
+             "(8x40x2 KiB, 4x60x512 B; thorough also 8x150x16 KiB, 8x100x8 KiB, 3x300x64 B). (f) Connection layer over wall-clock time: "
+             "the unmodified NewConnection (ping goroutine, reader, reconnect) against the reference server on its own listener, in "
+             "child processes that overlap the other cases (75 s watchdog, a hang is a reported failure): steady traffic for "
+             "12.6..13.5 s on ONE session (gaps 250..750 ms, thorough also up to 6 s; pings answered; unknown pongs interspersed); and "
+             "histories drop -> reconnect -> traffic ('close: server closes the socket and a later write of the application fails; "
+             "'silence: server stops sending and answering pings until the client gives up after 10 s), 3..5 sessions, the application "
+             "reading the channel it took ONCE from Responses() and sending marked packets on every session; number of handshakes, "
+             "payloads received on that channel and marked packets decoded per session are compared with the model of "
+             "Connection.reader / reconnect. Oracles on the implementation: valid frames delivered intact, altered frames "
              "never delivered, truncation ends in EOF, receive loop delivers exactly the intact prefix, both session directions "
              "in order and intact, reference server completes the handshake, concurrent senders: the server decodes exactly N*K intact frames, per "
-             "sender in order, encrypt and write calls alternate strictly, 8 MiB-64 round-trips and 8 MiB-63 is rejected "
+             "sender in order, encrypt and write calls alternate strictly, wall-clock histories: exactly the scheduled sessions, every packet of every "
+             "session received in order on the one channel, every marked packet decoded, 8 MiB-64 round-trips and 8 MiB-63 is rejected "
              "(thorough). A class is (stream, segmentation / position / length bucket, size bucket, outcome)."),
     'explanation': ("coq/Properties/C11.v, for every hash with 32-byte output, every deterministic keystream generator and every key "
                     "agreement with dh a (pub b) = dh b (pub a): the specification server accepts the client's handshake, recovers the "
@@ -35,13 +44,17 @@ PROP = {
                     "64..8 MiB are rejected after 4 bytes; truncation delivers the intact prefix and ends in EOF; for every number of "
                     "senders and every schedule of their lock / encrypt / write / unlock steps admitted by the connection mutex the "
                     "wire is send_all of the packets in lock-acquisition order (per-sender order preserved), and the variant that "
-                    "unlocks before encrypt/write is refuted by a two-sender witness. "
+                    "unlocks before encrypt/write is refuted by a two-sender witness; a session's reader keeps running and delivers every "
+                    "data packet for as long as no gap between arrivals reaches reconnectTimeout and the transport reports no error "
+                    "(nothing else ends a session), and whatever any session's reader delivers reaches the channel returned once by "
+                    "Responses(); the single-timer reader and the channel-per-handshake designs are refuted in Proofs/AdnlHistory.v. "
                     "coq/Properties/C11_gen.v re-checks params offsets 0/32/64/80/96/160, the key-id tag, the ParsePacket bounds and "
                     "operators, marshal/parse/handshake slice bounds and the cipher wiring translated from today's source."),
     'assumptions': ["SHA-256, AES-CTR and X25519 are parameters of the theorems (Section variables); corruption detection is reduced to an exhibited SHA-256 coincidence, not excluded",
                     "AES/X25519/Ed25519 correctness is trusted to the Go libraries (oracle columns); the Gallina SHA-256 is checked against crypto/sha256 by every compared frame",
                     "a modification that rewrites payload AND checksum consistently is accepted by design of the protocol (checksum, not MAC); the theorems cover alterations confined to one of the two regions and the length field",
-                    "TCP timing, bufio internals and reconnect/ping logic of Connection are runtime; the reader is modelled as the list of segments",
+                    "TCP timing and bufio internals are runtime; the reader is modelled as the list of segments",
+                    "Connection.reader / reconnect are modelled over a list of arrivals with gaps in ms (timer = comparison of a gap with 10 s); gaps within scheduling jitter of exactly 10 s are not generated; how a closed session leads to the next handshake (failed write -> reconnect) is exercised by the wall-clock scenarios, not modelled",
                     "goroutines calling Connection.Send are modelled as an interleaving transition system with an atomic mutex; XORKeyStream and Write are atomic steps (a data race inside XORKeyStream is not modelled, the load runs exercise it)"],
 }
 
@@ -55,13 +68,17 @@ META = {
              "alteration of nonce|payload or of the checksum, in particular any single byte or bit, is rejected or exhibits a SHA-256 "
              "collision; an altered length is rejected, runs into EOF or can only yield a payload of a different size; truncation never "
              "yields a wrong payload; several senders on one connection, in every interleaving admitted by the connection mutex, "
-             "put exactly send_all of their packets in lock order on the wire (unlock-before-write variant refuted). The extracted model is run against the real client (loopback TCP session with a reference server, "
+             "put exactly send_all of their packets in lock order on the wire (unlock-before-write variant refuted); a session lives as "
+             "long as packets flow (only a 10 s silence or a transport error ends it) and all sessions of a Connection deliver into "
+             "the one channel of Responses() (single-timer and channel-per-handshake designs refuted). The extracted model is run against the real client (loopback TCP session with a reference server, "
              "deterministic crypto/rand; also 2..8 goroutines sending concurrently through the real Connection.Send, and a "
-             "transport that holds one Write to let a second sender overtake) and against ParsePacket / the receive loop on corrupted, truncated and re-segmented streams; "
+             "transport that holds one Write to let a second sender overtake, and the unmodified NewConnection over 13 s of steady "
+             "traffic and over drop/reconnect histories in wall-clock time) and against ParsePacket / the receive loop on corrupted, truncated and re-segmented streams; "
              "constants and slice bounds are re-translated from the source and checked by vm_compute."),
     'design_ref': 'DESIGN.md §6 C11',
     'note': ("Trusted: Coq kernel, extraction, drivers, Go harness incl. its reference server, Go crypto libraries (AES-CTR keystreams and "
-             "X25519 results enter the model as oracle columns). Corruption detection is reduced to a named SHA-256 coincidence. The "
-             "Connection layer (ping/pong filter, reconnect, auth) is outside this property."),
+             "X25519 results enter the model as oracle columns). Corruption detection is reduced to a named SHA-256 coincidence. Of the "
+             "Connection layer the reader's pong/auth filter, its silence timer, reconnect and the Responses() channel are covered; "
+             "the auth handshake (authKey) is outside this property."),
     'technique': 'Coq proof over an abstract stream cipher/hash (induction over packet lists, segmentation independence) + extracted-model correspondence with deterministic randomness + translated-constant obligations',
 }
